@@ -1246,6 +1246,31 @@ def c16(res, wd):
     nm, frames = sizes(res.tier, (12, 200), (80, 800))
     ps = [plans.misuse(rng, frames) for _ in range(nm)]
     engines.obs_runs(res, "C16", ps, {"C16", "C01", "C03", "C02"}, wd, "c16", nontrivial=lambda st, pl: st["ticks"] >= 100)
+    # SyncTestSession misuse: unknown handles, advance_frame with inputs missing (they stay registered for the
+    # next call); judged by the monitor and replayed through SyncTest.tla (results of every add/advance compared)
+    sps = []
+    for i in range(sizes(res.tier, 6, 30)):
+        sp = _st_plan(rng, 120, glitch=False)
+        sp["p_misuse"] = rng.choice([0.1, 0.3])
+        sps.append(sp)
+    engines.obs_runs(res, "C16", sps, {"C16", "C13", "C02", "C03"}, wd, "c16st",
+                     nontrivial=lambda st, pl: st["ticks"] >= 100)
+
+    def stconf(job):
+        i, pl = job
+        path = os.path.join(wd, "stmis_%02d.ndjson" % i)
+        core.drive([pl], path, detail=2)
+        return i, path, engines.validate_st(path, os.path.join(wd, "mdstmis_%02d" % i))
+
+    sdrift = 0
+    for i, path, d in core.parallel(stconf, list(enumerate(sps[:sizes(res.tier, 4, 12)])), n=6):
+        res.traces += 1
+        if d["drift"]:
+            sdrift += 1
+            res.extra.setdefault("conformance_drift", []).append({"trace": path, "first": d["drift"]})
+    res.extra["conformance_synctest_misuse"] = {"sessions": len(sps[:sizes(res.tier, 4, 12)]), "drift": sdrift}
+    if sdrift:
+        core.log("[C16] CONFORMANCE-DRIFT in %d sync-test misuse sessions" % sdrift)
     pairs = []
     for i, pl in enumerate(ps[:sizes(res.tier, 5, 30)]):
         q = json.loads(json.dumps(pl))
